@@ -12,6 +12,7 @@ from .. import niche as NI
 from ..guard import N, arg, fld, deref
 from . import c03
 from . import memsafe as MS
+from . import c05
 
 ASSUMED_ENUM_FIELDS = {
     ("multiboot2_header::header::Multiboot2BasicHeader", "arch"),
@@ -23,7 +24,7 @@ ASSUMED_ENUM_FIELDS = {
 
 
 def run(ctx):
-    F, cl = MS.run_memsafe(ctx, "multiboot2_header", ["C14", "C15", "C05"], {"sites": 15})
+    F, cl = MS.run_memsafe(ctx, "multiboot2_header", ["C14", "C15", ("C05", c05.only_header_kinds, "header kinds")], {"sites": 15})
     # header-tag iterator: same transition premises as C03 with H = HeaderTagHeader
     c03.check_next(ctx, F, "multiboot2_header::tags::HeaderTagHeader", 4, "HeaderTagHeader", rule_prefix="T")
     it = F.insts.get("multiboot2_header::header::Multiboot2Header::<'_>::iter")
